@@ -40,14 +40,19 @@ package modeling
 //@   ensures t.lastRunTickTime == lastRun && (t.hasRunTick <==> hasRun)
 //@   assigns t.lastRunTickTime, t.hasRunTick
 
-// ---- specHash: NO panics clause — it must not panic (it is on the LoadCheckpoint path) ----
+// ---- specHash: NO panics clause — it must not panic (it is on the LoadCheckpoint path); a spec that json cannot
+// marshal (e.g. a float64 field holding +Inf) is an error (fixed in /repo e4b8946c; it used to panic) ----
 //@ fn (*Component[S, T, R]).specHash
 //@   property C07
 //@   requires c != nil
+//@   label C07.spechash.error.empty
+//@   ensures result1 != nil ==> result0 == ""
 //@   assigns jsonEncTyp, jsonEncVal, jsonEncCount
 //@ fn (*EventDrivenComponent[S, T, R]).specHash
 //@   property C07
 //@   requires c != nil
+//@   label C07.spechash.error.empty
+//@   ensures result1 != nil ==> result0 == ""
 //@   assigns jsonEncTyp, jsonEncVal, jsonEncCount
 
 // ---- Component.LoadCheckpoint ----
@@ -58,6 +63,7 @@ package modeling
 //@   property C07
 //@   requires c != nil
 //@   witness gotHash int = got     // `got` is declared after the first return: a witness tolerates the unbound path
+//@   witness hashFailed bool = err != nil && jsonEncCount == old(jsonEncCount) + 1   // specHash (the only Marshal so far) failed
 //@   label C07.comp.spechash.mismatch
 //@   ensures gotHash != dto.SpecHash ==> result != nil
 //@   label C07.comp.error.unchanged
